@@ -75,6 +75,19 @@ def run(ctx):
             n += 1
             if got != occurs:
                 fails.append({"case": {"rule": rn, "child": c}, "what": f"is_allowed_child({c!r}) of {rn} = {got}, but the name {'occurs' if occurs else 'does not occur'} in a valid child sequence"})
+        # every OTHER name of the vocabulary (all known elements the rule does not mention): never allowed, always refused
+        for c in ri.mappings:
+            if c in flat:
+                continue
+            n += 1
+            got = r.is_allowed_child(c)
+            if got is not False:
+                fails.append({"case": {"rule": rn, "child": c}, "what": f"is_allowed_child({c!r}) of {rn} = {got}, but the rule does not mention that name: it occurs in no valid child sequence"})
+                break
+            idx = suggest(r, pname, [], c)
+            if idx != "ChildNotAllowedError":
+                fails.append({"case": {"rule": rn, "kids": [], "child": c}, "what": f"{rn}: name {c!r} is not allowed but child_insert_index returned {idx!r}"})
+                break
         for xs in seqs(ri, rn, ctx):
             for c in cands:
                 n += 1
